@@ -18,6 +18,10 @@ type zzFrame struct {
 	err  error
 }
 
+// a request whose first argument byte is this marker is answered with an empty reply by the
+// auto-answering stub server (a handler whose reply encodes to zero bytes)
+const zzEmptyReplyMarker = 0xEE
+
 var errZZWrite = errors.New("zz: write failed")
 var errZZRead = errors.New("zz: read failed")
 
@@ -98,7 +102,7 @@ func (m *zzMsgs) WriteMessage(b []byte) error {
 				m.nCalls++
 			}
 			var reply []byte
-			if len(r.Upgrade) == 0 {
+			if len(r.Upgrade) == 0 && !(len(r.Args) > 0 && r.Args[0] == zzEmptyReplyMarker) {
 				reply = zzReplyFor(r.Args)
 			}
 			m.in <- zzFrame{data: zzResponse(r.Seq, "", reply)}
